@@ -26,6 +26,10 @@ M = [
     'no_close_operands_path', 'sub_prec_plus2', 'set_no_truncate', 'add_prec_plus1', 'add_copy_low_limbs', 'add_v_not_truncated', 'add_direct_rp', 'add_no_carry_exp']),
  ('MpfAddSub', {'W': 3, 'PRECS': '{2}', 'LIMBS': '{0,1,7}', 'Funs': '{"sub"}', 'Aliases': '{"none"}', 'USigns': '{1}', 'XS': 3, 'Checker': '"int"'}, ('Correct',), ['truncate_before_cancel']),
  ('MpfAddSub', {'W': 2, 'PRECS': '{3}', 'LIMBS': '{0,3}', 'Funs': '{"add","sub"}', 'Aliases': '{"none"}', 'USigns': '{1}', 'XS': 2, 'Checker': '"int"'}, ('Correct',), ['add_no_zero_gap', 'gap_zero_fill']),
+ ('SqrtremDC', {'W': 4, 'TP': 2, 'NMAX': 2, 'WMAX': 4, 'EMIT': 'FALSE'}, ('Correct',), ['lost_carry_in_correction', 'no_final_adjust', 'no_2q_in_correction', 'no_sub_when_q', 'odd_bit_dropped',
+               's2_lost_carry_in_correction', 's2_no_final_adjust', 's2_no_qhl_loop', 's1_no_tab_fixup', 'w_no_s0_fix']),
+ ('SqrtremDC', {'W': 8, 'TP': 2, 'NMAX': 1, 'WMAX': 2, 'EMIT': 'FALSE'}, ('Correct',), ['s1_no_loop_adjust']),       # the sqrtrem1 doubling loop runs only for W >= 4*TP
+ ('Hgcd2',     {'W': 4, 'LOWSEL': 0, 'EMIT': 'FALSE'}, ('Correct',), ['no_small_check', 'q_not_incremented', 'sp_break_small', 'small_q_wrong', 'div2_gt']),
 ]
 def run(mod, consts, inv, variant):
     d = tempfile.mkdtemp(prefix='mv-')
